@@ -109,7 +109,7 @@ fn pick_functions(rng: &mut Rng, focus: &str) -> Vec<&'static FnDesc> {
         .filter(|d| !(no_ttl && d.ttl.is_some()))
         .filter(|d| match focus {
             "C14" => true,
-            "C03" => !d.scope_thread && d.limit.is_none() && d.ttl.is_none() && d.max_memory.is_none(),
+            "C03" => !d.scope_thread && d.ttl.is_none() && d.max_memory.is_none(),
             "C09" => !d.scope_thread && d.is_result && d.limit.is_none() && d.ttl.is_none() && d.max_memory.is_none(),
             "C07" => !d.scope_thread && d.limit.is_some() && d.ttl.is_none() && d.max_memory.is_none() && matches!(d.policy, "fifo" | "lru"),
             "C08" => !d.scope_thread && d.limit.is_some() && d.ttl.is_none() && d.max_memory.is_none() && matches!(d.policy, "lfu" | "arc" | "tlru"),
@@ -151,7 +151,9 @@ fn gen_scenario(seed: u64, index: u64, focus: &str, jitter: bool) -> Scenario {
     let mut fns = vec![];
     for d in ds {
         let cap = d.limit.unwrap_or(2);
-        let n = (cap + 1 + rng.usize(2)).min(d.nslots as usize).max(1);
+        // C03/C09: bounded caches take part with no more distinct keys than their limit, so that
+        // nothing can be evicted and "computed once" still applies
+        let n = if matches!(focus, "C03" | "C09") && d.limit.is_some() { cap.min(d.nslots as usize).max(1) } else { (cap + 1 + rng.usize(2)).min(d.nslots as usize).max(1) };
         let off = if d.nslots as usize > n + 8 { rng.usize(d.nslots as usize - n - 8) } else { 0 };
         fns.push(FnCtx { d, slots: (0..n).map(|i| (off + i) as u32).collect(), keymap: BTreeMap::new(), fp: BTreeMap::new() });
     }
@@ -570,7 +572,8 @@ fn run_scenario(rep: &mut Report, sc: &mut Scenario, seed: u64, mode: &str, focu
             }
         }
         // C03 / C14 shared visibility: no execution after a storing call returned (unbounded, never invalidated)
-        if d.limit.is_none() && d.ttl.is_none() && d.max_memory.is_none() && !sc.has_invalidation[fi] {
+        let never_evicts = d.limit.map_or(true, |n| f.slots.len() <= n);
+        if never_evicts && d.ttl.is_none() && d.max_memory.is_none() && !sc.has_invalidation[fi] {
             for c in calls.iter().filter(|r| r.executed) {
                 rep.count("C03", "executions_checked_against_history", 1);
                 if d.is_result {
